@@ -172,6 +172,8 @@ struct ChannelSim<B: Buf> {
     wire_cap: usize,
     in_flight: VecDeque<Sent>,
     next_id: u64,
+    /// the reader reached Channel's BufferFull state (space 0 at the ceiling, frame incomplete)
+    buffer_full: bool,
     st: Stats,
 }
 
@@ -196,6 +198,7 @@ impl<B: Buf> ChannelSim<B> {
             wire_cap,
             in_flight: VecDeque::new(),
             next_id: 0,
+            buffer_full: false,
             st: Stats { ops: 0, written: 0, delivered: 0, refused_too_large: 0, grows: 0, shrinks: 0, explicit_shifts: 0, would_block_w: 0, would_block_r: 0, junk: 0, max_capacity: initial },
         }
     }
@@ -405,7 +408,14 @@ impl<B: Buf> ChannelSim<B> {
                 return true;
             }
         }
-        if self.front.buf.available_space() == 0 && B::GROWS && self.front.buf.capacity() < self.max {
+        if self.front.buf.available_space() == 0 {
+            if self.front.buf.capacity() >= self.max || !B::GROWS {
+                // Channel::try_read_delimited_message returns Err(BufferFull) here, and nothing on the
+                // read path ever shifts: a real Channel stays in this state. Not a Buffer fault (the
+                // FIFO contract holds) — counted, and the simulated channel is abandoned.
+                self.buffer_full = true;
+                return false;
+            }
             let n = self.grow_size(self.front.buf.capacity()).unwrap_or(self.max);
             Self::do_grow(&mut self.front, &mut self.st, n, "grow_front_for_message");
         }
@@ -414,7 +424,20 @@ impl<B: Buf> ChannelSim<B> {
 
     fn drain_all(&mut self, rng: &mut Rng) {
         let mut idle = 0;
-        while !self.in_flight.is_empty() {
+        let mut rounds = 0u64;
+        while !self.in_flight.is_empty() && !self.buffer_full {
+            rounds += 1;
+            if rounds > 200_000 {
+                fail(
+                    &format!("{}/no_progress_while_draining", B::NAME),
+                    format!(
+                        "in_flight={} wire={} back_data={} back_cap={} front_data={} front_space={} front_cap={} initial={} max={} front_head={}",
+                        self.in_flight.len(), self.wire.len(), self.back.model.len(), self.back.buf.capacity(),
+                        self.front.model.len(), self.front.buf.available_space(), self.front.buf.capacity(), self.initial, self.max,
+                        hex(&self.front.model[..self.front.model.len().min(16)])
+                    ),
+                );
+            }
             self.writable(rng);
             self.readable(rng);
             let mut progressed = false;
@@ -432,6 +455,9 @@ impl<B: Buf> ChannelSim<B> {
                     format!("{} frames in flight, front data={} capacity={}", self.in_flight.len(), hex(self.front.buf.data()), self.front.buf.capacity()),
                 );
             }
+        }
+        if self.buffer_full {
+            return;
         }
         if !self.front.model.is_empty() || !self.back.model.is_empty() || !self.wire.is_empty() {
             fail(&format!("{}/bytes_left_after_all_delivered", B::NAME), format!("front={} back={} wire={}", self.front.model.len(), self.back.model.len(), self.wire.len()));
@@ -457,6 +483,7 @@ fn run_channel_sims<B: Buf>(sh: &Shard) -> (u64, String) {
     let mut rng = Rng::new(sh.seed, 0xB0F, sh.shard);
     let mut total = Stats { ops: 0, written: 0, delivered: 0, refused_too_large: 0, grows: 0, shrinks: 0, explicit_shifts: 0, would_block_w: 0, would_block_r: 0, junk: 0, max_capacity: 0 };
     let mut sims = 0u64;
+    let (mut buffer_full_sims, mut abandoned) = (0u64, 0u64);
     while total.ops < ops_budget {
         // (initial, max): the values C11 uses natively (64 / 4096..65536) scaled down for Miri
         let initial = *rng.pick(&[16usize, 17, 24, 33, 64]);
@@ -466,6 +493,9 @@ fn run_channel_sims<B: Buf>(sh: &Shard) -> (u64, String) {
         let mut sim = ChannelSim::<B>::new(initial, max, wire_cap);
         let steps = rng.urange(40, 200);
         for _ in 0..steps {
+            if sim.buffer_full {
+                break;
+            }
             match rng.below(8) {
                 0 | 1 | 2 => {
                     let n = message_size(&mut rng, initial, max);
@@ -483,6 +513,10 @@ fn run_channel_sims<B: Buf>(sh: &Shard) -> (u64, String) {
         }
         sim.drain_all(&mut rng);
         sims += 1;
+        if sim.buffer_full {
+            buffer_full_sims += 1;
+            abandoned += sim.in_flight.iter().filter(|m| matches!(m, Sent::Msg(_))).count() as u64;
+        }
         total.ops += sim.st.ops;
         total.written += sim.st.written;
         total.delivered += sim.st.delivered;
@@ -495,13 +529,13 @@ fn run_channel_sims<B: Buf>(sh: &Shard) -> (u64, String) {
         total.junk += sim.st.junk;
         total.max_capacity = total.max_capacity.max(sim.st.max_capacity);
     }
-    if total.written != total.delivered {
-        fail(&format!("{}/written_ne_delivered", B::NAME), format!("{} vs {}", total.written, total.delivered));
+    if total.written != total.delivered + abandoned {
+        fail(&format!("{}/written_ne_delivered", B::NAME), format!("{} vs {} (+{abandoned} abandoned)", total.written, total.delivered));
     }
     (
         total.ops,
         format!(
-            "sims={sims} messages={} refused_too_large={} grows={} shrinks={} explicit_shifts={} eagain_w={} eagain_r={} junk_prefixes={} max_capacity={}",
+            "sims={sims} channel_buffer_full_states={buffer_full_sims} messages={} refused_too_large={} grows={} shrinks={} explicit_shifts={} eagain_w={} eagain_r={} junk_prefixes={} max_capacity={}",
             total.delivered, total.refused_too_large, total.grows, total.shrinks, total.explicit_shifts, total.would_block_w, total.would_block_r, total.junk, total.max_capacity
         ),
     )
